@@ -332,6 +332,14 @@ static PyObject* c_verif_counters(PyObject* self, PyObject* args) {
     qvverif_checks = 0; qvverif_mismatches = 0; qvverif_bounds = 0;
     return res;
 }
+/* Verification hook: largest |dE used - (E(after) - E(before))| (and cache
+   staleness) relative to the sum of |coefficients| since the last call. */
+extern double qvverif_maxdev;
+static PyObject* c_verif_maxdev(PyObject* self, PyObject* args) {
+    PyObject *res = PyFloat_FromDouble(qvverif_maxdev);
+    qvverif_maxdev = 0.;
+    return res;
+}
 #endif
 
 static PyMethodDef CAnnealMethods[] = {
@@ -353,6 +361,12 @@ static PyMethodDef CAnnealMethods[] = {
         c_verif_counters,
         METH_NOARGS,
         "verification hook: (checks, mismatches, bounds) since last call"
+    },
+    {
+        "c_verif_maxdev",
+        c_verif_maxdev,
+        METH_NOARGS,
+        "verification hook: largest relative dE deviation since last call"
     },
 #endif
     {NULL, NULL, 0, NULL}  // Sentinel
